@@ -4,9 +4,17 @@
  *   - a stub libpython (GIL, Py_InitializeEx, EvalCode running scripted init code),
  *   - the preemption-bounded depth-first explorer (one forked child per execution).
  *
- * usage: world <nlibs> <init0><init1> <bound> <prog0> <prog1> [<prog2>]
+ * usage: world <nlibs> <init0><init1>[:<world>] <bound> <maxexec> <prog0> <prog1> [<prog2>]
  *   init: O ok | F fail | R ok+recursive call of own function | X ok+call of the other
  *         library's function | G ok, GIL released in the middle | S fail after recursive call
+ *   world (initial state; default: Python not initialised, nobody owns the GIL):
+ *         P      = Python is already initialised when the threads start, the GIL is free
+ *                  (the library is loaded into a running interpreter; callers came through
+ *                  a GIL-releasing FFI such as ctypes.CDLL / cffi's own lib.f())
+ *         H<k..> = P, and each listed thread takes the GIL before its first program
+ *                  operation and keeps it until its program ends (a C-extension / PyDLL
+ *                  caller); the stub Python still releases it where real Python would
+ *                  (around C calls made by the init code, init kind G)
  *   prog: string over {0,1,s,t}: 0/1 = call lib_f_<n>(7); s/t = cffi_start_python() of lib 0/1
  * output: one line per DISTINCT event log:  LOG <count> <choices,...> | ev;ev;...
  *         and a final STAT line.  Exit status 0, or 3 on harness failure.
@@ -55,6 +63,8 @@ static long yield_stamp[MAXT];
 static int nlibs; static char initkind[2];
 static int gil_owner = -1;
 static int py_initialized = 0;
+static int pre_init;       /* world P / H: Python already initialised */
+static int held_mask;      /* world H: bit k = thread k makes its calls while owning the GIL */
 struct mtx { void *addr; int owner; int count; };
 static struct mtx MT[8]; static int nmt;
 
@@ -183,11 +193,34 @@ int verif_cas(void *volatile *l, void *o, void *n)
     return 0;
 }
 
+int verif_cas32(volatile int *l, int o, int n)
+{
+    quiet_point();
+    if (*l == o) { *l = n; progress++; return 1; }
+    yield_point();
+    return 0;
+}
+
+/* InterlockedCompareExchangePointer(dest, exchange, comparand): returns the previous value */
+void *verif_icx(void *volatile *l, void *n, void *o)
+{
+    void *old;
+    quiet_point();
+    old = *l;
+    if (old == o) { *l = n; progress++; return old; }
+    yield_point();
+    return old;
+}
+
 void verif_barrier(void) { verif_point("barrier"); }
 
 void verif_assert(int ok, const char *text)
 {
     if (!ok) verif_event("ASSERTFAIL %d %s", verif_tid(), text);
+    /* (variant py311) the assert on PyCapsule_Type.tp_flags at the top of _cffi_carefully_make_gil
+       reads a word nobody writes and is not in a loop: no scheduling point, and above all no
+       free (unbounded) thread switch, which multiplied the schedules of 3 threads by six */
+    if (strstr(text, "tp_flags")) return;
     /* the only statement in the `else` arm of the spin loop of
        _cffi_carefully_make_gil is an assert: this is that loop's yield */
     yield_point();
@@ -224,7 +257,7 @@ int verif_mutex_unlock(void *m)
 }
 
 /* ------------------------------------------------------------------ stub libpython */
-PyTypeObject PyCapsule_Type = { 0, 0, 0 };
+PyTypeObject PyCapsule_Type = { 0, 0, 0 };   /* tp_as_buffer NULL, no HAVE_VERSION_TAG, tp_version_tag 0 */
 PyObject _Py_NoneStruct;
 static PyObject dummy_obj;
 static int init_thread[2] = { -1, -1 };
@@ -361,6 +394,11 @@ static void *thread_main(void *arg)
     me = t;
     sem_wait(&t->sem);
     if (aborted) return NULL;
+    if (held_mask & (1 << t->id)) {
+        /* world H: this caller owns the GIL while it calls into the libraries */
+        gil_acquire();
+        verif_event("GILHELD %d", t->id);
+    }
     for (p = t->prog; *p; p++) {
         int r;
         verif_point("before-call");
@@ -377,6 +415,12 @@ static void *thread_main(void *arg)
             break;
         }
     }
+    if (held_mask & (1 << t->id)) {
+        if (gil_owner != t->id) verif_event("GIL-LOST-BY-HOLDER %d", t->id);
+        else { gil_owner = -1; progress++; }
+    }
+    else if (gil_owner == t->id)
+        verif_event("GIL-LEAKED %d", t->id);     /* a caller that came without the GIL leaves with it */
     t->finished = 1;
     progress++;
     handoff(t);
@@ -395,9 +439,24 @@ static void run_execution(int nthreads, char **progs, int outfd)
         pthread_create(&T[i].th, NULL, thread_main, &T[i]);
     }
     alarm(20);
+    if (pre_init) { py_initialized = 1; verif_event("PREINIT"); }
     first = decide(-1);
     if (first >= 0) { sem_post(&T[first].sem); sem_wait(&ctl); }
-    if (deadlock) verif_event("DEADLOCK");
+    if (deadlock) {
+        /* the wait-for graph: <tid>:m<owner of the mutex> | <tid>:g<owner of the GIL>, +G = owns the GIL */
+        char wf[160]; int wl = 0;
+        for (i = 0; i < NT; i++) {
+            if (T[i].finished) continue;
+            if (T[i].wait_kind == 1)
+                wl += snprintf(wf + wl, sizeof wf - wl, " %d:m%d%s", i, find_mtx(T[i].wait_obj)->owner,
+                               gil_owner == i ? "+G" : "");
+            else if (T[i].wait_kind == 2)
+                wl += snprintf(wf + wl, sizeof wf - wl, " %d:g%d", i, gil_owner);
+            else
+                wl += snprintf(wf + wl, sizeof wf - wl, " %d:?", i);
+        }
+        verif_event("DEADLOCK%s", wf);
+    }
     if (livelock) verif_event("LIVELOCK");
     if (horizon) verif_event("HORIZON");
     /* header: infra, nch, then (choice,nen,still) triples */
@@ -441,7 +500,22 @@ int main(int argc, char **argv)
     long max_exec;
     if (argc < 6) { fprintf(stderr, "usage\n"); return 3; }
     nlibs = atoi(argv[1]);
-    initkind[0] = argv[2][0]; initkind[1] = argv[2][1] ? argv[2][1] : 'O';
+    initkind[0] = argv[2][0]; initkind[1] = (argv[2][1] && argv[2][1] != ':') ? argv[2][1] : 'O';
+    {
+        char *w = strchr(argv[2], ':');
+        if (w) {
+            w++;
+            if (*w == 'P' && !w[1]) pre_init = 1;
+            else if (*w == 'H' && w[1]) {
+                pre_init = 1;
+                for (w++; *w; w++) {
+                    if (*w < '0' || *w >= '0' + MAXT) { fprintf(stderr, "bad world\n"); return 3; }
+                    held_mask |= 1 << (*w - '0');
+                }
+            }
+            else if (*w) { fprintf(stderr, "bad world\n"); return 3; }
+        }
+    }
     bound = atoi(argv[3]);
     max_exec = atol(argv[4]);
     nthreads = argc - 5;
